@@ -29,7 +29,7 @@ use std::time::Duration;
 pub static INFO: PropInfo = PropInfo {
     id: "C18",
     level: "exploration",
-    rule: "one evaluation = one simulated pair (real NetcodeServer + real NetcodeClient, addressed datagram network with per-datagram drop / duplicate / delay decisions, virtual time, tick lengths {10,100,250,400 ms, irregular}, timeouts {1,5,15 s,-1}) in one of five seeded scenarios: (H) handshake under a fault phase (random loss up to 90 %, duplication, reordering, or scripted 'lose the first n copies of handshake packet k' for each of the four packets), then faults stop and the pair must be connected on both sides within B = 4*(250 ms + 2*dt_max) + 1 s unless the token expiry or the client's own timeout falls inside B or the server is full; variants with other clients connected, the limit raised above its construction value, lowered to full and raised again; in half of the (H) and (F) pairs the applications STREAM: the server hands a payload to the session every tick from the moment it reports the client connected, the client likewise once connected; (F) failover: 1-2 silent server addresses listed before the real one; (T) timeouts: connect, chatty phase with loss, then one or both directions go silent; at every update / update_client the deadline monitor demands a disconnect iff no authentic packet arrived for more than `timeout`, and forbids it while one arrived within `timeout`; the same history is run twice, once with injected datagrams (replayed Response / Request, random type-0 datagram, replayed / bit-flipped / wrong-key keep-alives, replayed Challenge) and the disconnect times of the twins are compared; (L) long lossy-but-live session in which each direction delivers at least one authentic packet per timeout/2: no disconnect allowed; (P) half-open entry (verif_pending hook) must vanish at the first update with floor(t) > expire, also under replayed requests. Non-trivial = the scenario's obligation was actually evaluated (deadline reached with preconditions true / a timeout verdict was taken / the pending entry was seen and then checked); distinct = distinct fingerprints of the datagram and state history.",
+    rule: "one evaluation = one simulated pair (real NetcodeServer + real NetcodeClient, addressed datagram network with per-datagram drop / duplicate / delay decisions, virtual time, tick lengths {10,100,250,400 ms, irregular}, timeouts {1,5,15 s,-1}) in one of five seeded scenarios: (H) handshake under a fault phase (random loss up to 90 %, duplication, reordering, or scripted 'lose the first n copies of handshake packet k' for each of the four packets), then faults stop and the pair must be connected on both sides within B = 4*(250 ms + 2*dt_max) + 1 s unless the token expiry or the client's own timeout falls inside B or the server is full; variants with other clients connected, the limit raised above its construction value, lowered to full and raised again; in half of the (H) and (F) pairs the applications STREAM: the server hands a payload to the session every tick from the moment it reports the client connected, the client likewise once connected; (F) failover: 1-2 silent server addresses listed before the real one; (T) timeouts: connect, chatty phase with loss, then one or both directions go silent; at every update / update_client the deadline monitor demands a disconnect iff no authentic packet arrived for more than `timeout`, and forbids it while one arrived within `timeout`; the same history is run twice, once with injected datagrams (replayed Response / Request, random type-0 datagram, replayed / bit-flipped / wrong-key keep-alives, replayed Challenge) and the disconnect times of the twins are compared; (L) long lossy-but-live session in which each direction delivers at least one authentic packet per timeout/2: no disconnect allowed; (R) restart: a client starts a handshake and is gone before completing it; a new client with a fresh token (same or new client id) starts from the same address while the first one's half-open entry is still at the server, and must be connected within B; (P) half-open entry (verif_pending hook) must vanish at the first update with floor(t) > expire, also under replayed requests. Non-trivial = the scenario's obligation was actually evaluated (deadline reached with preconditions true / a timeout verdict was taken / the pending entry was seen and then checked); distinct = distinct fingerprints of the datagram and state history.",
     assumptions: &[
         "bounded liveness only: B = 4*(250 ms + 2*dt_max) + 1 s of virtual time after the fault phase; failover adds (timeout + 2*dt_max) per silent address",
         "authentic for the must-disconnect clause = first delivery of any datagram the peer really produced (lenient); for the must-not-disconnect clause only first deliveries of keep-alive / payload datagrams while connected count (strict); datagrams in between (a late Response after the server already connected the client) may or may not refresh",
@@ -39,6 +39,7 @@ pub static INFO: PropInfo = PropInfo {
     gates: &[
         ("stream.server_payloads_before_client_connected", 100),
         ("handshake.checked.plain", 40),
+        ("handshake.checked.restart", 40),
         ("handshake.checked.after-faults", 150),
         ("handshake.checked.failover", 40),
         ("handshake.checked.limit-raised", 40),
@@ -560,6 +561,7 @@ pub fn one_run(ctx: &Ctx, out: &mut Outcome, run_seed: u64) {
         6 | 7 => scen_failover(ctx, out, &mut r, run_seed),
         8..=11 => scen_timeout_twins(ctx, out, run_seed),
         12 | 13 => scen_live(ctx, out, &mut r, run_seed),
+        14 => scen_restart(ctx, out, &mut r, run_seed),
         _ => scen_pending(ctx, out, &mut r, run_seed),
     }
 }
@@ -980,6 +982,57 @@ fn scen_live(ctx: &Ctx, out: &mut Outcome, r: &mut Rng, run_seed: u64) {
         out.count("live_session_ended_legitimately");
     }
     finish(out, &p, ok, json!({"loss_up": p.pol.loss_up, "loss_down": p.pol.loss_down}));
+}
+
+/// A client starts a handshake and is gone before it completes (crash, cancel, restart of the application); a new
+/// client - fresh token, fresh keys, the same or another client id - starts from the SAME address while the server
+/// still holds the half-open entry of the first one. It is an honest client with a valid token and the server has
+/// room, so it must be connected on both sides within the bound.
+fn scen_restart(ctx: &Ctx, out: &mut Outcome, r: &mut Rng, run_seed: u64) {
+    let (fixed, dt_max) = pick_dt(r);
+    let tau = *r.pick(&[5, 15, -1]);
+    let expire_s = 120;
+    let maxc = r.urange(1, 3);
+    let mut p = match Pair::new(r, run_seed, "restart", maxc, tau, 0, expire_s, dt_max) {
+        Ok(p) => p,
+        Err(e) => return out.inconclusive(&format!("C18 setup: {e}")),
+    };
+    // the first client gets as far as its request (and perhaps its response) ...
+    let steps = r.range(1, 3);
+    let drop_challenges = r.chance(1, 2);
+    if drop_challenges {
+        p.pol.block_down = true;
+    }
+    for _ in 0..steps {
+        let dt = next_dt(r, fixed);
+        p.tick(ctx, out, r, dt);
+    }
+    let half_open = p.srv.snapshot().pending.iter().any(|x| x.0 == p.caddr);
+    if !half_open || p.stop || p.srv.s.is_client_connected(p.id) {
+        out.count("restart.void_no_half_open_entry");
+        return finish(out, &p, false, json!({"steps": steps}));
+    }
+    // ... and is replaced by a fresh client at the same address
+    let same_id = r.chance(1, 2);
+    let new_id = if same_id { p.id } else { p.id + 1 };
+    let key = p.srv.key;
+    let m = mint(r, p.srv.now.as_secs(), p.srv.protocol_id, expire_s, new_id, tau, &[p.saddr], None, &key);
+    let cli = match Cli::new(p.cnow, m, p.caddr) {
+        Ok(c) => c,
+        Err(e) => return out.inconclusive(&format!("C18 restart: client setup: {e}")),
+    };
+    p.hist.push(format!("t={:.3} the first client is gone (half-open entry left at the server); a new client with a fresh token (client id {}) starts at the same address", p.cnow.as_secs_f64(), if same_id { "unchanged" } else { "new" }));
+    p.cli = cli;
+    p.id = new_id;
+    p.net.clear();
+    p.pol = Policy::default();
+    p.seen_c.clear();
+    p.seen_s.clear();
+    out.count("restart.fresh_token_same_address");
+    let connect_start = p.cnow;
+    let expire_at = p.cli.minted.expire;
+    let ok = check_bounded_connect(ctx, out, r, &mut p, fixed, "restart", Duration::ZERO, expire_at, Duration::from_secs(expire_s), connect_start);
+    finish(out, &p, ok, json!({"same_client_id": same_id, "first_client_steps": steps, "challenges_lost": drop_challenges}));
 }
 
 fn scen_pending(ctx: &Ctx, out: &mut Outcome, r: &mut Rng, run_seed: u64) {
